@@ -2,7 +2,7 @@
 import ast
 
 from ..model import AnalysisError, dotted, unparse
-from ..util import U, enum_paths, walk_no_nested, is_yield_call
+from ..util import FACTS, FACTS_I, U, enum_paths, walk_no_nested, is_yield_call
 from ..paths import call_attr, call_name
 
 R = 'scales/resurrector.py'
@@ -10,7 +10,7 @@ OBS = 'scales/observable.py'
 
 
 def facts(ev, upto=None):
-  return [(U(e.node).replace(' ', ''), e.info) for e in (ev if upto is None else ev[:upto]) if e.kind == 'cond']
+  return FACTS(ev if upto is None else ev[:upto])
 
 
 def check(ctx):
